@@ -139,3 +139,81 @@ func TestC14Enum(t *testing.T) {
 	col.SetExhaustive(true)
 	t.Logf("enumerated %d cases (shard %d/%d) of %d", total, sh, shards, len(programs)*len(words)*len(enumStates))
 }
+
+// Small-scope exhaustive part with self-GC: every program of exactly 3 edits of
+// the tree text (12 templates: insert "X" / insert "YZ" / delete one character
+// at offsets 0..3 of the first paragraph) or of the text (the same 12 on "t"),
+// then the replica collects its own garbage (step "gc"), then every well-nested
+// undo/redo word of length <= 4. Undo after the purge has to re-create what it
+// revives; the content oracle applies to the entries the gc step keeps in the
+// model (live adjacent ladder anchor, see eval).
+var gcEnumTree, gcEnumText = func() (tree, text []prog.Step) {
+	for off := 0; off < 4; off++ {
+		tree = append(tree,
+			prog.Step{Op: "trtext", A: 0, B: off, C: 3}, // insert "X"
+			prog.Step{Op: "trtext", A: 0, B: off, C: 6}, // insert "YZ"
+			prog.Step{Op: "trtext", A: 0, B: off, C: 1}, // delete one character
+		)
+		text = append(text,
+			prog.Step{Op: "tedit", A: off, B: 0, C: 1}, // insert "x"
+			prog.Step{Op: "tedit", A: off, B: 0, C: 2}, // insert "yz"
+			prog.Step{Op: "tedit", A: off, B: 1, C: 0}, // delete one character
+		)
+	}
+	return tree, text
+}()
+
+func TestC14EnumGC(t *testing.T) {
+	col := stats.New(prop, "enumgc")
+	defer col.Flush(true)
+	words := undoRedoWords(4)
+	var programs [][]prog.Step
+	for _, set := range [][]prog.Step{gcEnumTree, gcEnumText} {
+		for _, a := range set {
+			for _, b := range set {
+				for _, c := range set {
+					programs = append(programs, []prog.Step{a, b, c})
+				}
+			}
+		}
+	}
+	// the text needs content to delete from: a fixed prefix fills "t"
+	prefix := []prog.Step{{Op: "tedit", A: 0, B: 0, C: 5}}
+	sh, shards := kit.Shard()
+	idx, total := 0, 0
+	for _, p := range programs {
+		for _, w := range words {
+			idx++
+			if idx%shards != sh || len(w) == 0 {
+				continue
+			}
+			c := Case{Stratum: "content", Who: 0, Clear: true}
+			c.Steps = append(append([]prog.Step{}, prefix...), p...)
+			c.Steps = append(c.Steps, prog.Step{Op: "gc"})
+			for _, op := range w {
+				c.Steps = append(c.Steps, prog.Step{Op: op})
+			}
+			out := eval(c)
+			total++
+			out.Ev[fmt.Sprintf("word_len_%d", len(w))] = 1
+			col.Record(c.hash(), out.Fail == nil && out.Ev["gc_step_purged"] > 0 && out.Ev["undo_known"] > 0, out.Ev, func() any { return sampleOf(c, out) })
+			if out.Fail != nil {
+				if out.Fail.Kind == "HARNESS" {
+					fmt.Printf("HARNESS-ERROR property=%s %s\n", prop, out.Fail.Msg)
+					t.Fatalf("harness error: %s", out.Fail.Msg)
+				}
+				path := kit.WriteReplay(prop, "case", fmt.Sprintf("enumgc-%016x", c.hash()), c, out.Fail, out.Hist)
+				col.AddViolation(stats.Violation{Replay: path, Kind: out.Fail.Kind, Msg: out.Fail.Msg})
+				kit.ReportViolation(prop, path, out.Fail)
+				for _, h := range out.Hist {
+					fmt.Printf("    %s\n", h)
+				}
+				col.SetExhaustive(false)
+				t.Fatalf("%s", out.Fail.Error())
+			}
+		}
+	}
+	col.SetExtra("enumgc_space", len(programs)*(len(words)-1))
+	col.SetExhaustive(true)
+	t.Logf("enumerated %d cases (shard %d/%d)", total, sh, shards)
+}
